@@ -34,7 +34,7 @@ VERIFICATION_MSGS = [
 ]
 RESOURCE_MSGS = ['resource limit', 'rlimit', 'timed out', 'timeout']
 
-OB_RE = re.compile(r'/\*@ob\s+(\S+)\s*\*/')
+OB_RE = re.compile(r'/\*@ob\s+(.+?)\s*\*/')
 
 VERUS_ENV = dict(os.environ)
 
